@@ -20,6 +20,7 @@ from . import utc_time_from_datetime
 from . import generalized_time_to_datetime
 from . import generalized_time_from_datetime
 from .compiler import enum_values_as_dict
+from .compiler import clean_bit_string_value
 from .ber import Class
 from .ber import Tag
 from .ber import encode_object_identifier
@@ -731,6 +732,13 @@ class BitString(Type):
             if not has_extension_marker:
                 if minimum == maximum:
                     self.number_of_bits = minimum
+
+    def is_default(self, value):
+        has_named_bits = (self.named_bits is not None)
+        clean_value = clean_bit_string_value(value, has_named_bits)
+        clean_default = clean_bit_string_value(self.default, has_named_bits)
+
+        return clean_value == clean_default
 
     def encode(self, data, encoder):
         number_of_bytes, number_of_rest_bits = divmod(data[1], 8)
